@@ -51,4 +51,69 @@ theorem mkTimestamp_fields (y : Int) (mo d h mi s us : Nat) (t : Value)
   have e4 : us * 1000 / 1000 = us := Nat.mul_div_cancel us (by decide)
   rw [e1, e2, e3, e4]
 
+
+/-- all listed parts denote integers that fit their fields: the stored parts -/
+def storeParts (micros : Bool) : List PartVal → Nat → TsParts → Option TsParts
+  | [], _, p => some p
+  | .num n :: rest, idx, p =>
+    match setPart micros idx n p with
+    | some p' => storeParts micros rest (idx + 1) p'
+    | none => none
+  | _ :: _, _, _ => none
+
+/-- if all parts are integers in range and form a valid civil time, the column is that timestamp -/
+theorem specTsFrom_of_stored (c : Column) :
+    ∀ (parts : List PartVal) (idx : Nat) (p p' : TsParts) (t : Value),
+      storeParts c.options.microseconds parts idx p = some p' →
+      mkTimestamp p'.year p'.month p'.day p'.hour p'.minute p'.second p'.micro = some t →
+      specTsFrom c parts idx p = t := by
+  intro parts
+  induction parts with
+  | nil =>
+    intro idx p p' t hs hm
+    simp only [storeParts, Option.some.injEq] at hs
+    subst hs
+    simp only [specTsFrom, hm]
+  | cons a rest ih =>
+    intro idx p p' t hs hm
+    cases a with
+    | absent => simp [storeParts] at hs
+    | notLit => simp [storeParts] at hs
+    | num n =>
+      simp only [storeParts] at hs
+      simp only [specTsFrom]
+      cases hsp : setPart c.options.microseconds idx n p with
+      | none => rw [hsp] at hs; cases hs
+      | some q => rw [hsp] at hs; exact ih (idx + 1) q p' t hs hm
+
+/-- conversely (no DEFAULT declared): a non-NULL TIMESTAMP column means every listed part was an integer that fits
+its field and the stored parts form a valid civil time — whose fields are exactly those parts -/
+theorem specTsFrom_nonnull (c : Column) (hd : c.defaultValue = .null) :
+    ∀ (parts : List PartVal) (idx : Nat) (p : TsParts),
+      (specTsFrom c parts idx p).isNull = false →
+      ∃ p', storeParts c.options.microseconds parts idx p = some p' ∧
+        mkTimestamp p'.year p'.month p'.day p'.hour p'.minute p'.second p'.micro = some (specTsFrom c parts idx p) ∧
+        tsFields (specTsFrom c parts idx p) = some p' := by
+  intro parts
+  induction parts with
+  | nil =>
+    intro idx p h
+    simp only [specTsFrom] at h ⊢
+    cases hm : mkTimestamp p.year p.month p.day p.hour p.minute p.second p.micro with
+    | none => rw [hm, hd] at h; cases h
+    | some t => exact ⟨p, rfl, hm, mkTimestamp_fields _ _ _ _ _ _ _ t hm⟩
+  | cons a rest ih =>
+    intro idx p h
+    cases a with
+    | absent => simp [specTsFrom, Value.isNull] at h
+    | notLit => simp [specTsFrom, Value.isNull] at h
+    | num n =>
+      simp only [specTsFrom] at h ⊢
+      cases hsp : setPart c.options.microseconds idx n p with
+      | none => rw [hsp, hd] at h; cases h
+      | some q =>
+        rw [hsp] at h
+        simp only [storeParts, hsp]
+        exact ih (idx + 1) q h
+
 end Sqlgrep.Extract
